@@ -24,13 +24,13 @@ CHECKS = {
          "bounded exhaustive exploration of the ledger graph on the real code; differential twin equality"),
  "C11": ("every ledger vs the ledger minus each CAPRETURN/ACCUMULATION/DIVIDEND event: exact expenditure shift, later acquisitions untouched, cancelling pairs, no negative cost, refusal brackets",
          "bounded exhaustive exploration of the ledger graph on the real code; with/without-event differential"),
- "C13": ("deviation-bounded exploration of DSL texts: every set of <= k lexical deviations at distinct sites of 23 canonical texts, and every single-token corruption under LF/CRLF/CR, against an independent recogniser of the README grammar; cgt-tool parse on deviated files",
+ "C13": ("deviation-bounded exploration of DSL texts: every set of <= k lexical deviations at distinct sites of 23 canonical texts, and every single-token corruption (garbage and every grammar token in the wrong place) under LF/CRLF/CR, against an independent recogniser of the README grammar; cgt-tool parse on deviated files",
          "deviation-bounded exhaustive exploration of input texts on the real parser vs reference recogniser"),
  "C14": ("all single- and two-field departures over extreme value alphabets for the seven kinds, every date 0000-01-01..9999-12-31, every ISO code, every `years` ledger: DSL and JSON round trips, idempotence, report equality; MCP/CLI front-ends on a subset",
          "exhaustive enumeration of bounded value alphabets on the real writer/parser/serialiser; round-trip identity"),
- "C15": ("all token sequences <= L over a 30-token alphabet and all ordered ledgers <= k events over a 7-magnitude alphabet at 5 calendar positions through parse->validate->calculate->format under catch_unwind in watchdog-guarded child processes; CLI fault menu (one process per cell); validator truth table",
+ "C15": ("all token sequences <= L over a 30-token alphabet and all ordered ledgers <= k events over a 7-magnitude alphabet at 5 calendar positions through parse->validate->calculate->format under catch_unwind in watchdog-guarded child processes; CLI fault menu (one process per cell); validator truth table; converter row sequences and long exports (5..100 rows, four row orders, a comment/cancel row at every position)",
          "exhaustive enumeration of bounded input sequences and of a fault menu on the real code; no panic/abort/hang, atomic failure"),
- "C16": ("iteration-order explorer over the cfg-gated verif_map hook: every schedule of map-traversal permutations with <= d non-identity choices on three many-security ledgers; byte equality of text/JSON/full-precision report (and PDF text) with the identity execution; stated orders; repeated CLI processes as an additional sample",
+ "C16": ("iteration-order explorer over the cfg-gated verif_map hook: every schedule of map-traversal permutations with <= d non-identity choices on three many-security ledgers; byte equality of text/JSON/full-precision report (and PDF text) with the identity execution; stated orders; repeated CLI processes as an additional sample; every ordered pair of 11 MCP requests in a fresh server vs a fresh process",
          "deviation-bounded exhaustive exploration of hash-map iteration orders (controlled scheduler over a cfg-gated hook) on the real code"),
  "C17": ("half-penny lattice of gains/proceeds/costs/fees/average costs x magnitudes x quantities: every figure of the plain-text report, the JSON report, the compiled PDF's text runs (hook verif_text_runs) and MCP calculate_report/explain_matching parsed back and compared with the full-precision report; lists of years/disposals/legs/holdings compared",
          "exhaustive enumeration of a value lattice on the real formatters (incl. the real Typst compile via a cfg-gated hook) vs exact rounding"),
@@ -38,9 +38,9 @@ CHECKS = {
          "exhaustive enumeration of bounded row sequences x all row orders x all chunk cuts on the real converter vs reference map"),
  "C19": ("all 4096 subsets of vest-entry offsets -9..+2 x 5 entry-kind patterns x symbol case x 5 deposit dates, converted by the real converter and compared with a five-line reference look-up",
          "exhaustive enumeration of award-file shapes on the real converter vs reference look-up"),
- "C20": ("every sequence of <= k requests over a 17-request alphabet x every await/pipeline pattern, each in a fresh real `cgt-tool mcp` process: one response per id, body equal to the solo-session answer (itself equal across six fresh servers), alive until EOF, exit 0; every fixture ledger: calculate_report = CLI JSON and explain_matching explains every disposal",
+ "C20": ("every sequence of <= k requests over a 17-request alphabet x every await/pipeline pattern, each in a fresh real `cgt-tool mcp` process: one response per id, body equal to the solo-session answer (itself equal across six fresh servers), alive until EOF, exit 0; every fixture ledger: calculate_report = CLI JSON and explain_matching explains every disposal (all-years and one-year reports)",
          "exhaustive enumeration of bounded request sequences x externally controllable schedules on the real server process; differential statelessness oracle"),
- "C12": ("edges prefix -> prefix+suffix: every accepted prefix x every continuation of <= k events dated T+31/T+32/T+45; earlier disposals and year totals unchanged, refusals caused by appended dates only",
+ "C12": ("edges prefix -> prefix+suffix: every accepted prefix x every continuation of <= k events dated T+31/T+32/T+45, and growth by 1..40 lines in two layouts; earlier disposals and year totals unchanged, refusals caused by appended dates only",
          "exhaustive enumeration of prefix/continuation edges of the bounded ledger graph on the real code"),
 }
 ALL = ["C%02d" % i for i in range(1, 21)]
